@@ -67,6 +67,45 @@ def _enum(cfg, name, init, ops, base_tid):
     return out
 
 
+F1m, F2m = 200000 + 40 * 100 + 1, 200000 + 48 * 100 + 2      # file-backed values of the Deque / Index victims
+
+
+def obj_workloads():
+    o = lambda name, **a: {'op': name, 'a': a}
+    dq = [
+        ('deque-append-file', [1, F1m], -1, [o('append', v=F2m), o('appendleft', v=5)]),
+        ('deque-append-at-maxlen', [1, F1m, 3], 3, [o('append', v=F2m), o('appendleft', v=6)]),
+        ('deque-pop', [1, F1m, 3], -1, [o('pop'), o('popleft'), o('pop')]),
+        ('deque-setitem-delitem', [1, F1m, 3], -1, [o('setitem', i=1, v=F2m), o('delitem', i=0)]),
+        ('deque-remove', [1, F1m, 3], -1, [o('remove', v=F1m)]),
+        ('deque-clear', [1, F1m, 3], -1, [o('clear')]),
+        ('deque-setmaxlen', [1, F1m, 3, 4], -1, [o('setmaxlen', m=2)]),
+        ('deque-extend', [1], -1, [o('extend', vs=[6, F2m, 7]), o('extendleft', vs=[8, 9])]),
+        ('deque-rotate', [1, F1m, 3], -1, [o('rotate', n=1), o('rotate', n=-2)]),
+        ('deque-reverse', [1, F1m, 3], -1, [o('reverse')]),
+    ]
+    ix = [
+        ('index-setitem', [[1, 1], [2, F1m], [7, 3]], 0, [o('setitem', k=2, v=F2m), o('setitem', k=8, v=5), o('setitem', k=1, v=F1m)]),
+        ('index-remove', [[1, 1], [2, F1m], [7, 3]], 0, [o('delitem', k=2), o('pop', k=1, d=[]), o('popitem', last=1)]),
+        ('index-setdefault', [[1, 1]], 0, [o('setdefault', k=8, v=F2m), o('setdefault', k=1, v=9)]),
+        ('index-update', [[1, 1], [2, F1m]], 0, [o('update', pairs=[[8, 4], [2, 6], [7, F2m]])]),
+        ('index-clear', [[1, 1], [2, F1m], [7, 3]], 0, [o('clear')]),
+    ]
+    return [('deque',) + w for w in dq] + [('index',) + w for w in ix]
+
+
+def _enum_obj(kind, name, init, maxlen, ops, base_tid):
+    t0 = killdriver.run_kill_obj(kind, init, maxlen, ops, 0, base_tid)
+    t0['workload'] = name
+    out = [t0]
+    for n in range(1, t0['points'] + 1):
+        t = killdriver.run_kill_obj(kind, init, maxlen, ops, n, base_tid + n)
+        t['workload'] = name
+        t['point'] = t0['kinds'][n - 1]
+        out.append(t)
+    return out
+
+
 def _async(cfg, name, init, ops, delay, tid):
     t = killdriver.run_kill(cfg, init, ops, 0, tid, async_delay=delay)
     t['workload'] = name
@@ -129,13 +168,45 @@ def run(prop, tier, seed):
                       % (t['workload'], t['kill_at'], t.get('point'), v['why']),
                       {'workload': t['workload'], 'initops': t['initops'], 'ops': t['ops'], 'kill_at': t['kill_at'],
                        'events': t['ev'], 'verdict': v})
+    # Deque and Index operations under the same enumeration, judged against DequeOps / IndexOps
+    owl = obj_workloads()
+    if tier == 'quick':
+        rng.shuffle(owl)
+        keep = [w for w in owl if w[1] in ('deque-rotate', 'index-setitem')]
+        owl = keep + [w for w in owl if w not in keep][:4]
+    ojobs = [(kind, name, init, maxlen, ops, 5 * 10 ** 6 + 1000 * i) for i, (kind, name, init, maxlen, ops) in enumerate(owl)]
+    ores = pmap(_enum_obj, ojobs, procs=14)
+    otr = [t for lst in ores for t in lst]
+    for i, t in enumerate(otr):
+        t['id'] = i + 1
+    import harness.common as _c
+    _c.TRACE_FIELDS = ('id', 'kind', 'init', 'maxlen', 'ev')
+    overd, st, tr = validate_all('ObjKillTrace.tla', 'ObjKillTrace.cfg', otr, batch_events=20000)
+    out.states += st
+    out.transitions += tr
+    out.traces += len(otr)
+    out.events += sum(len(t['ev']) for t in otr)
+    points += sum(lst[0]['points'] for lst in ores)
+    obyid = {t['id']: t for t in otr}
+    for tid_, v in sorted(overd.items()):
+        t = obyid[tid_]
+        if v['ok']:
+            for d in v.get('known', []):
+                if d in findings:
+                    out.known(findings[d], '(workload %s killed before boundary event %s: %s)' % (t['workload'], t.get('kill_at'), t.get('point')))
+                else:
+                    out.violation('needs unlisted deviation %s' % d, {'workload': t['workload'], 'kill_at': t['kill_at']})
+            continue
+        out.violation('workload %s killed before boundary event %s (%s): %s' % (t['workload'], t['kill_at'], t.get('point'), v['why']),
+                      {'workload': t['workload'], 'init': t['init'], 'ops': t['ops'], 'kill_at': t['kill_at'], 'events': t['ev'], 'verdict': v})
+    out.notes['deque_index_workloads'] = [w[1] for w in owl]
     for t in traces[1:3]:
         out.samples.append({'workload': t['workload'], 'kill_before_event': t['kill_at'], 'kind': t.get('point'),
                             'observation': t['ev'][-1]})
     out.assumptions += ['SQLite atomic commit and lock release on process death are trusted',
                         'kill points: immediately before every database statement and every file / directory operation of the victim; '
                         'asynchronous kills inside SQLite only in the thorough tier (sampled)',
-                        'Deque and Index workloads are killed in the C11 / C12 checks']
+                        'Deque and Index workloads: the same enumeration, contents listed by a fresh Deque / Index, judged against DequeOps / IndexOps (ObjKillTrace.tla)']
     return out.finish({'evaluations': len(traces), 'distinct_nontrivial': len(changed),
                        'kill_points_enumerated': points,
                        'rule': 'each workload is first run to completion in a forked child counting its boundary events (N), then re-run N times, the child '
